@@ -86,7 +86,10 @@ func Name(e Entry, c *vlib.Conc) string {
 
 // Flags translates a configuration into command-line flags (no trimming).
 func Flags(cfg Cfg, c *vlib.Conc) []string {
-	a := []string{"-" + cfg.Gran, fmt.Sprintf("-sample_index=s%d", cfg.SI)}
+	a := []string{"-" + strings.TrimSuffix(cfg.Gran, "+cols"), fmt.Sprintf("-sample_index=s%d", cfg.SI)}
+	if strings.HasSuffix(cfg.Gran, "+cols") {
+		a = append(a, "-showcolumns")
+	}
 	if cfg.NoInl {
 		a = append(a, "-noinlines")
 	}
